@@ -57,7 +57,7 @@ def preload():
 
 
 EXPECTED_PROBES = {t: ["torn_root_inside_token", "torn_module", "torn_to_empty", "garble_float_id", "garble_string_enum_value",
-                       "garble_unknown_param", "garble_param_arity", "garble_empty_enum", "garble_array_size", "garble_deep_nest",
+                       "garble_unknown_param", "garble_param_arity", "garble_empty_enum", "garble_array_size", "garble_deep_nest", "other_text:random_tokens", "other_text:crlf", "other_text:bom",
                        "missing_module", "empty_module", "string_api", "tree_modified_in_place", "shared_logger_reused", "err_rendered",
                        "citation_checked"] for t in TIERS}
 
@@ -180,6 +180,33 @@ def garbles(rng, text, n):
     return out
 
 
+VOCAB = ["version", ":", '"3"', "struct", "enum", "impl", "for", "as", "signal", "service", "method", "returns", "device", "mod",
+         "{", "}", "[", "]", "(", ")", ",", ";", "@", "|", "=", ".", "u8", "i16", "f32", "f64", "str", "Optional", "unit", "range",
+         "Foo", "bar", "x1", "0", "1", "-7", "2.5", '"s"', '""', "// c\n", "/* c */", "\n", "\t", " "]
+
+
+def other_texts(rng, text):
+    """The 'random text' family and whole-file encodings/line-ending variants. Returns [(kind, new_text)]."""
+    out = []
+    for _ in range(6):
+        n = rng.choice([1, 3, 8, 20, 60])
+        soup = " ".join(rng.choice(VOCAB) for _ in range(n))
+        if rng.random() < 0.5:
+            soup = 'version: "3"\n' + soup
+        out.append(("random_tokens", soup))
+    alphabet = "abc {}[]():;,@|=.\"\n\t0123456789_-/*\\é\x00\x7f\u2028"
+    for _ in range(3):
+        out.append(("random_chars", "".join(rng.choice(alphabet) for _ in range(rng.choice([1, 5, 40, 200])))))
+    out.append(("crlf", text.replace("\n", "\r\n")))
+    out.append(("cr_only", text.replace("\n", "\r")))
+    out.append(("bom", "\ufeff" + text))
+    out.append(("no_final_newline", text.rstrip("\n")))
+    out.append(("trailing_garbage", text + rng.choice(["}", "\x00\x00\x00", "struct", "\n\n/* unterminated", '"', "\x1a"])))
+    out.append(("long_identifier", text.replace("struct ", "struct " + "A" * rng.choice([300, 5000]), 1)))
+    out.append(("unterminated_string", text.replace('"', '"\\', 1) if '"' in text[14:] else text + '"x'))
+    return out
+
+
 # ---------------------------------------------------------------------------
 
 
@@ -286,7 +313,7 @@ def run_one(seed: int, index: int, tier: str) -> dict:
         res["evals"] += 1
         hist = list(recent)
         recent[:] = (recent + [{"files": ff, "logger": mode}])[-3:]
-        faults[kind.split("_")[0] if kind.startswith("garble") else kind] += 1
+        faults[kind.split("_")[0] if kind.startswith("garble") else kind] += 1      # torn / garble / random_* / crlf / ...
         if out != "ok":
             distinct.add(short([depth_of.get(file, 1), kind, tokinfo, api, out]))
         tr.add("parse", file=file, fault=kind, at=tokinfo, outcome=out, v=[x[:2] for x in v])
@@ -324,6 +351,10 @@ def run_one(seed: int, index: int, tier: str) -> dict:
                 k += 1
                 probes[kind] += 1
                 deliver(kind, file, newtext, base, k, "literal")
+            for kind, newtext in other_texts(rf, text):
+                k += 1
+                probes["other_text:" + kind] += 1
+                deliver(kind, file, newtext, base, k, "file")
             if not is_root:
                 k += 1
                 probes["missing_module"] += 1
